@@ -219,6 +219,8 @@ func (dc *dataChunk) dropStaleTail() (err error) {
 	}
 	logger.Infof("drop stale tail of %s: %d -> %d", dc.path, dc.size, dc.writingHead)
 	// not Truncate(): it removes an empty file, and the writer keeps appending to this one
+	verifhook.Point("fs.truncate.before", dc.path, dc.writingHead)
+	defer verifhook.Point("fs.truncate.after", dc.path, dc.writingHead)
 	if err = os.Truncate(dc.path, int64(dc.writingHead)); err != nil {
 		return
 	}
